@@ -201,6 +201,10 @@ pub enum QOp {
     TryRow(Vec<Cell>, RowForm),
     /// `end_row`, result recorded, program goes on
     TryEndRow,
+    /// the backend takes its time here (a lazily computed cell, a slow disk): a real pause of that many
+    /// milliseconds. The only wall-clock dependence in the harness: verdicts never depend on it, it
+    /// only gives time-driven code in the library (timers, deadlines) occasion to run
+    Pause(u64),
 }
 impl QOp {
     /// value-erased shape name
@@ -224,6 +228,7 @@ impl QOp {
             QOp::TryCol(_) => "try_col",
             QOp::TryRow(..) => "try_write_row",
             QOp::TryEndRow => "try_end_row",
+            QOp::Pause(_) => "pause",
         }
     }
 }
@@ -583,6 +588,11 @@ impl ScriptShim {
                     self.res(i, name, &Ok(()));
                 }
                 QOp::Params(_) => {}
+                QOp::Pause(ms) => {
+                    if !cfg!(miri) {
+                        std::thread::sleep(std::time::Duration::from_millis(*ms));
+                    }
+                }
                 QOp::TryCol(cell) => {
                     let r = match rw.as_mut() {
                         Some(r) => r,
